@@ -19,7 +19,7 @@ RULE = ('pairs of schemas grown from a common shape plus private additions (over
         'in-place Equate leaves the schema unchanged. Distinct = hash of the script; non-trivial = accepted non-empty table '
         'or a merge/dedup that renamed or removed something.')
 ASSUMPTIONS = ['which tables must be ACCEPTED is not specified by the property beyond the empty table; acceptance is taken from the code and its consequences are checked',
-               'constituents that mention an unresolved name are not judged on definition equality when that name exists in the result (capture excluded by C08)']
+               'constituents that mention an unresolved name are not judged on definition equality (the name may be captured by an intermediate alias; capture is excluded by C08)']
 MIN_JUDGED = {'quick': 3000, 'thorough': 60000}
 NSH = 32
 
@@ -82,8 +82,9 @@ def random_pairs(rnd, shape_len, na, nb, like):
             pairs.append([{'idx': i}, {'idx': i}])
             used_a.add(i)
             used_b.add(i)
-    for _ in range(rnd.choice([0, 0, 0, 1, 2])):
-        pairs.append([fg.uid_arg(rnd, na, gone=0, foreign=0.05), fg.uid_arg(rnd, nb, gone=0, foreign=0.05)])
+    # unlike kinds / crossing pairs (base with structure, constant with term ...): chains and cycles through typifications
+    for _ in range(rnd.choice([0, 0, 0, 1, 2, 3, 5])):
+        pairs.append([fg.uid_arg(rnd, na, gone=0, foreign=0.03), fg.uid_arg(rnd, nb, gone=0, foreign=0.03)])
     for p in pairs:
         r = rnd.random()
         if r < 0.15:
@@ -170,7 +171,8 @@ def check_images(res, what, operands, result, cs):
         skip = False
         for name, snap, u in sources:
             it = snap['items'][u]
-            if dangling[name][u] & new_names:
+            if dangling[name][u]:
+                # an unresolved name may be captured by an intermediate alias during merge + renumbering (excluded by C08)
                 skip = True
             want_def, _ = rslex.translate(it['def'], amaps[name])
             want_conv, _ = rslex.translate(it['conv'], amaps[name])
@@ -355,7 +357,7 @@ def run_shard(desc, env):
     rnd = env.rng('c12', desc['kind'], desc['i'])
     big = env.tier != 'quick'
     make = synth_case if desc['kind'] == 'synth' else inplace_case
-    cases = [make(rnd, desc['i'] * 100000 + k) for k in range(1500 if big else 60)]
+    cases = [make(rnd, desc['i'] * 100000 + k) for k in range(1500 if big else 100)]
     for cs, cr in env.execute(cases, chunk=20):
         judge(res, cs, cr)
     return res
